@@ -246,7 +246,9 @@ pub fn check(problem: &PProblem, solution: &Value, opts: &OracleOptions) -> Vec<
         if first.loc != Some(shift.start_loc) || first.acts.first().map(|a| a.kind.as_str()) != Some("departure") {
             f.push(Finding::new("C03:departure-stop", here("first stop is not the departure from the shift start location")));
         }
-        let t0 = first.departure;
+        // a job served at the start location shares the stop with the departure activity: the vehicle then leaves
+        // the depot state at the end of the departure activity, not at the departure of the stop
+        let t0 = if first.acts.len() > 1 { first.acts[0].time.map_or(first.arrival, |t| t.1) } else { first.departure };
         if t0 < shift.start_earliest - tol {
             f.push(Finding::new("C01:shift-start", here(&format!("departure {} before earliest {}", t0, shift.start_earliest))));
         }
@@ -278,7 +280,8 @@ pub fn check(problem: &PProblem, solution: &Value, opts: &OracleOptions) -> Vec<
                         continue;
                     }
                     if let Some(job) = job_by_id.get(a.job_id.as_str()) {
-                        if !job.is_dynamic() && (a.kind == "delivery" || a.kind == "replacement") {
+                        // a replacement is a static exchange (loaded at the interval start, the same amount taken back) whatever else the job holds
+                        if a.kind == "replacement" || (!job.is_dynamic() && a.kind == "delivery") {
                             if let Some(task) = job.tasks.iter().find(|t| t.kind.name() == a.kind) {
                                 for (d, x) in pad(&task.demand, dims).iter().enumerate().take(dims) {
                                     load[d] += x;
@@ -304,9 +307,6 @@ pub fn check(problem: &PProblem, solution: &Value, opts: &OracleOptions) -> Vec<
             }
         };
         check_capacity(&load, &mut f, "at departure");
-        if !first.load.is_empty() && pad(&first.load, dims) != pad(&load, first.load.len()) {
-            f.push(Finding::new("C03:load", here(&format!("departure stop reports load {:?}, replay gives {load:?}", first.load))));
-        }
 
         let (mut driving, mut serving, mut waiting, mut break_time) = (0f64, 0f64, 0f64, 0f64);
         let mut distance = 0f64;
@@ -326,6 +326,7 @@ pub fn check(problem: &PProblem, solution: &Value, opts: &OracleOptions) -> Vec<
         let mut matched_tasks: HashMap<String, HashSet<usize>> = HashMap::new();
         let mut dynamic_on_board = vec![0i64; dims];
 
+        let mut last_activity_end = t0;
         for (si, stop) in stops.iter().enumerate() {
             let stop_loc = stop.loc.unwrap_or(prev_loc);
             if si > 0 {
@@ -367,8 +368,9 @@ pub fn check(problem: &PProblem, solution: &Value, opts: &OracleOptions) -> Vec<
                                 if act_loc != end_loc {
                                     f.push(Finding::new("C03:arrival-stop", here("arrival is not at the shift end location")));
                                 }
-                                if stop.arrival > latest + tol {
-                                    f.push(Finding::new("C01:shift-end", here(&format!("arrival {} after shift end {}", stop.arrival, latest))));
+                                let arrival_time = if stop.acts.len() > 1 { a.time.map_or(cur_time, |t| t.0).max(cur_time) } else { stop.arrival };
+                                if arrival_time > latest + tol {
+                                    f.push(Finding::new("C01:shift-end", here(&format!("arrival {} after shift end {}", arrival_time, latest))));
                                 }
                             }
                             None => f.push(Finding::new("C03:arrival-stop", here("arrival activity in a tour of an open shift"))),
@@ -532,7 +534,7 @@ pub fn check(problem: &PProblem, solution: &Value, opts: &OracleOptions) -> Vec<
             if (stop.departure - cur_time).abs() > tol && !(si == stops.len() - 1 && shift.end.is_some()) {
                 f.push(Finding::new("C03:departure", here(&format!("stop {si} departure {} != end of its last activity {}", stop.departure, cur_time))));
             }
-            if !stop.load.is_empty() && si > 0 {
+            if !stop.load.is_empty() {
                 // at the end of an interval static pickups are still on board: reported load is after departure
                 let reported = pad(&stop.load, dims);
                 // at the final arrival everything picked up is unloaded
@@ -545,7 +547,8 @@ pub fn check(problem: &PProblem, solution: &Value, opts: &OracleOptions) -> Vec<
                 }
             }
             prev_loc = stop_loc;
-            prev_departure = if si == 0 { t0 } else { stop.departure.max(cur_time) };
+            prev_departure = if si == 0 { cur_time } else { stop.departure.max(cur_time) };
+            last_activity_end = cur_time;
         }
         // open shift: nothing after the last job; closed shift must end with arrival
         if let Some(_) = shift.end {
@@ -553,7 +556,8 @@ pub fn check(problem: &PProblem, solution: &Value, opts: &OracleOptions) -> Vec<
                 f.push(Finding::new("C03:arrival-stop", here("tour of a closed shift does not end with arrival")));
             }
         }
-        let end_time = stops.last().map(|s| if shift.end.is_some() { s.arrival } else { s.departure }).unwrap_or(t0);
+        // an arrival which shares its stop with jobs happens when the last of them is done
+        let end_time = stops.last().map(|s| if shift.end.is_some() { if s.acts.len() > 1 { last_activity_end } else { s.arrival } } else { s.departure }).unwrap_or(t0);
         let duration = end_time - t0;
         // limits
         if let Some(l) = &vt.limits {
